@@ -238,13 +238,13 @@ Proof.
   induction b as [|o b IH]; intros fs d r d' fs' rs' es E; simpl in E.
   - inversion E. split; [reflexivity|discriminate].
   - destruct o as [m s|m badopt|].
-    + destruct (pop fs) as [fail fs1]. destruct fail.
+    + destruct (pop_exec fs) as [fail fs1]. destruct fail.
       * inversion E. split; [reflexivity|discriminate].
       * destruct (exec_stmt s d) as [d1|].
         -- destruct (run_body b fs1 [] d1) as [[[[r2 d2] fs2] rs2] es2] eqn:E2.
            inversion E; subst. exact (IH _ _ _ _ _ _ _ E2).
         -- inversion E. split; [reflexivity|discriminate].
-    + destruct (inspect_fails badopt d).
+    + destruct (pop_read fs) as [fail fs1]. destruct (fail || inspect_fails badopt d).
       * inversion E. split; [reflexivity|discriminate].
       * exact (IH _ _ _ _ _ _ _ E).
     + rewrite run_restore_nofault in E. simpl in E.
@@ -301,25 +301,25 @@ Qed.
 (** ** the exit "every statement succeeded, the inspection afterwards failed" *)
 Lemma run_body_inspect_fail b : forall fs rs d m d' fs' rs' es,
   run_body b fs rs d = (BInspectFail m, d', fs', rs', es) ->
-  forallb ok_event es = true /\ (exists bad, In (OInspect m bad) b /\ inspect_fails bad d' = true).
+  forallb ok_event es = true /\ (exists bad, In (OInspect m bad) b).
 Proof.
   induction b as [|o b IH]; intros fs rs d m d' fs' rs' es E; simpl in E.
   - inversion E.
   - destruct o as [m0 s|m0 badopt|].
-    + destruct (pop fs) as [fail fs1]. destruct fail; [inversion E|].
+    + destruct (pop_exec fs) as [fail fs1]. destruct fail; [inversion E|].
       destruct (exec_stmt s d) as [d1|]; [|inversion E].
       destruct (run_body b fs1 rs d1) as [[[[r2 d2] fs2] rs2] es2] eqn:E2.
-      inversion E; subst. destruct (IH _ _ _ _ _ _ _ _ E2) as [Hok [bad [Hin Hf]]].
-      split; [exact Hok|]. exists bad. split; [right; exact Hin|exact Hf].
-    + destruct (inspect_fails badopt d) eqn:Hf.
-      * inversion E; subst. split; [reflexivity|]. exists badopt. split; [left; reflexivity|exact Hf].
-      * destruct (IH _ _ _ _ _ _ _ _ E) as [Hok [bad [Hin Hf2]]].
-        split; [exact Hok|]. exists bad. split; [right; exact Hin|exact Hf2].
+      inversion E; subst. destruct (IH _ _ _ _ _ _ _ _ E2) as [Hok [bad Hin]].
+      split; [exact Hok|]. exists bad. right; exact Hin.
+    + destruct (pop_read fs) as [fail fs1]. destruct (fail || inspect_fails badopt d) eqn:Hf.
+      * inversion E; subst. split; [reflexivity|]. exists badopt. left; reflexivity.
+      * destruct (IH _ _ _ _ _ _ _ _ E) as [Hok [bad Hin]].
+        split; [exact Hok|]. exists bad. right; exact Hin.
     + destruct (run_restore rs d) as [[k d1] rs1] eqn:Er.
       destruct (restore_done k) eqn:Hd; [|inversion E].
       destruct (run_body b fs rs1 d1) as [[[[r2 d2] fs2] rs2] es2] eqn:E2.
-      inversion E; subst. destruct (IH _ _ _ _ _ _ _ _ E2) as [Hok [bad [Hin Hf]]].
-      split; [simpl; rewrite Hd; exact Hok|]. exists bad. split; [right; exact Hin|exact Hf].
+      inversion E; subst. destruct (IH _ _ _ _ _ _ _ _ E2) as [Hok [bad Hin]].
+      split; [simpl; rewrite Hd; exact Hok|]. exists bad. right; exact Hin.
 Qed.
 
 (** a session that ends with "inspection failed" was accepted, none of its
@@ -337,7 +337,7 @@ Proof.
   intros E. split; [reflexivity|].
   destruct r as [|m1| |m1]; try (inversion E; fail);
     try (destruct (restore_done k || negb (s_reports s)); inversion E; fail).
-  inversion E; subst. destruct (run_body_inspect_fail _ _ _ _ _ _ _ _ _ E1) as [Hok [bad [Hin _]]].
+  inversion E; subst. destruct (run_body_inspect_fail _ _ _ _ _ _ _ _ _ E1) as [Hok [bad Hin]].
   exists es1, k. split; [reflexivity|]. split; [exact Hok|]. split; [exists bad; exact Hin|].
   destruct (run_restore_spec _ _ _ _ _ Er) as [_ Hsp]. split.
   - intros Hk. destruct Hsp as [[Hlt _]|[_ Hd]]; [lia|exact Hd].
@@ -394,13 +394,13 @@ Proof.
   induction b as [|o b IH]; intros fs rs d r d' fs' rs' es E H; simpl in E.
   - inversion E. reflexivity.
   - destruct o as [m s|m badopt|].
-    + destruct (pop fs) as [fail fs1]. destruct fail.
+    + destruct (pop_exec fs) as [fail fs1]. destruct fail.
       * inversion E. reflexivity.
       * destruct (exec_stmt s d) as [d1|].
         -- destruct (run_body b fs1 rs d1) as [[[[r2 d2] fs2] rs2] es2] eqn:E2.
            inversion E; subst. simpl in H. discriminate.
         -- inversion E. reflexivity.
-    + destruct (inspect_fails badopt d).
+    + destruct (pop_read fs) as [fail fs1]. destruct (fail || inspect_fails badopt d).
       * inversion E. reflexivity.
       * exact (IH _ _ _ _ _ _ _ _ E H).
     + destruct (run_restore rs d) as [[k d1] rs1] eqn:Er.
@@ -450,14 +450,14 @@ Proof.
   induction b as [|o b IH]; intros fs rs d r d' fs' rs' es E; simpl in E.
   - inversion E. intros [].
   - destruct o as [m s|m badopt|].
-    + destruct (pop fs) as [fail fs1]. destruct fail.
+    + destruct (pop_exec fs) as [fail fs1]. destruct fail.
       * inversion E. simpl. intros [H|[]]. discriminate.
       * destruct (exec_stmt s d) as [d1|].
         -- destruct (run_body b fs1 rs d1) as [[[[r2 d2] fs2] rs2] es2] eqn:E2.
            inversion E; subst. simpl. intros [H|H]; [discriminate|].
            exact (IH _ _ _ _ _ _ _ _ E2 H).
         -- inversion E. simpl. intros [H|[]]. discriminate.
-    + destruct (inspect_fails badopt d).
+    + destruct (pop_read fs) as [fail fs1]. destruct (fail || inspect_fails badopt d).
       * inversion E. intros [].
       * exact (IH _ _ _ _ _ _ _ _ E).
     + destruct (run_restore rs d) as [[k d1] rs1]. destruct (restore_done k).
